@@ -15,6 +15,6 @@ sys.path.insert(0, "lib")
 import storelib as S
 import concurrent.futures as cf
 with cf.ThreadPoolExecutor(max_workers=5) as ex:
-    list(ex.map(S.gen_edges, ["core", "c09", "c10", "c11", "c18", "q", "c16", "c11b", "c12x", "c09b", "c10b", "c09c", "c10c", "c10d", "c10e", "c12y", "qv", "c09t", "c09d", "c18b", "c11c"]))
+    list(ex.map(S.gen_edges, ["core", "c09", "c10", "c11", "c18", "q", "c16", "c11b", "c12x", "c09b", "c10b", "c09c", "c10c", "c10d", "c10e", "c12y", "qv", "c09t", "c09d", "c18b", "c11c", "c18c"]))
 PY
 echo setup done
